@@ -226,24 +226,7 @@ func init() {
 				}
 			}
 		}
-		// histories on one scratch buffer: earlier returned strings / stored targets must not change
-		hn := 400
-		if thorough {
-			hn = 10000
-		}
-		strs := []string{`"caf\u00e9 au lait"`, `"x\ty`, `"Zo\u00eb"`, `"K\u00f6ln"`, `"plain"`, `"line one\nline two, long enough to outgrow a small buffer"`, `"SECOND\tVALUE that is also long enough to need growth"`, `""`, `"\n"`, `null`, `"a\\b"`, `"bad\q"`, `"😀\ud83d\ude00"`}
-		for i := 0; i < hn; i++ {
-			k := 2 + r.intn(5)
-			var ops []string
-			for j := 0; j < k; j++ {
-				s := r.pick(strs)
-				if r.chance(1, 3) {
-					s = `"` + genEscapes(r) + `"`
-				}
-				ops = append(ops, r.pick([]string{"rs", "dec", "dec"})+":"+hs([]byte(s)))
-			}
-			e.emit("strhist %d %s", r.pickInt([]int{-1, 0, 0, 4, 8, 64}), strings.Join(ops, " "))
-		}
+		strHistories(e, r, thorough)
 		docs := 3000
 		if thorough {
 			docs = 80000
@@ -321,4 +304,25 @@ func genScriptFrom(r *rng, pool []string) string {
 		p = append(p, r.pick(pool))
 	}
 	return strings.Join(p, ",")
+}
+
+// histories on one scratch buffer: earlier returned strings / stored targets must not change
+func strHistories(e *emitter, r *rng, thorough bool) {
+	hn := 400
+	if thorough {
+		hn = 10000
+	}
+	strs := []string{`"caf\u00e9 au lait"`, `"x\ty`, `"Zo\u00eb"`, `"K\u00f6ln"`, `"plain"`, `"line one\nline two, long enough to outgrow a small buffer"`, `"SECOND\tVALUE that is also long enough to need growth"`, `""`, `"\n"`, `null`, `"a\\b"`, `"bad\q"`, `"😀\ud83d\ude00"`}
+	for i := 0; i < hn; i++ {
+		k := 2 + r.intn(5)
+		var ops []string
+		for j := 0; j < k; j++ {
+			s := r.pick(strs)
+			if r.chance(1, 3) {
+				s = `"` + genEscapes(r) + `"`
+			}
+			ops = append(ops, r.pick([]string{"rs", "dec", "dec"})+":"+hs([]byte(s)))
+		}
+		e.emit("strhist %d %s", r.pickInt([]int{-1, 0, 0, 4, 8, 64}), strings.Join(ops, " "))
+	}
 }
